@@ -20,7 +20,7 @@ META = {
 }
 
 PROVS = list(CA.PROVIDERS)
-REDIRECTS = ["https://rp.example/cb", "https://rp.example/cb2"]
+REDIRECTS = ["https://rp.example/cb", "https://rp.example/cb2", None]
 MISMATCH_ERRORS = ("MismatchingStateError", "OAuthError")
 
 
@@ -178,6 +178,11 @@ GOLDEN = [
                      {"op": "callback", "sess": 0, "prov": "pkce", "state": 2}, {"op": "callback", "sess": 0, "prov": "both", "state": 0}]),
     ("two-flows-one-provider", [{"op": "begin", "sess": 0, "prov": "both", "redirect": REDIRECTS[0]}, {"op": "begin", "sess": 0, "prov": "both", "redirect": REDIRECTS[1]},
                                 {"op": "callback", "sess": 0, "prov": "both", "state": 0}, {"op": "callback", "sess": 0, "prov": "both", "state": 1}]),
+    # one app object: a flow with an explicit redirect_uri, then (other session, then same session) flows without one
+    ("explicit-then-default-redirect", [{"op": "begin", "sess": 0, "prov": "both", "redirect": REDIRECTS[0]}, {"op": "callback", "sess": 0, "prov": "both", "state": 0},
+                                        {"op": "begin", "sess": 1, "prov": "both", "redirect": None}, {"op": "callback", "sess": 1, "prov": "both", "state": 1},
+                                        {"op": "begin", "sess": 0, "prov": "both", "redirect": None}, {"op": "begin", "sess": 0, "prov": "plain", "redirect": REDIRECTS[1]},
+                                        {"op": "callback", "sess": 0, "prov": "both", "state": 2}, {"op": "callback", "sess": 0, "prov": "plain", "state": 3}]),
     ("provider-refuses-then-replay", [{"op": "begin", "sess": 0, "prov": "both", "redirect": REDIRECTS[0]},
                                       {"op": "callback", "sess": 0, "prov": "both", "state": 0, "provider_fails": True},
                                       {"op": "callback", "sess": 0, "prov": "both", "state": 0}]),
